@@ -36,7 +36,7 @@ def finish(pid, tier, seed, results, reg, assumed, wall, known, match_known):
         if r.get('timeout'):
             timeouts.append((kind, name))
             continue
-        {'unit': units, 'lemma': lemmas, 'canary': canaries, 'bounded': boundeds}[kind].append((name, r))
+        {'unit': units, 'lemma': lemmas, 'lean': lemmas, 'canary': canaries, 'bounded': boundeds}[kind].append((name, r))
     obligations = discharged = 0
     by_backend = {}
     solver_secs = 0.0
@@ -164,6 +164,10 @@ def finish(pid, tier, seed, results, reg, assumed, wall, known, match_known):
         "module-level tables and constants of pycoin are read from the imported module and treated as immutable",
     ]
     for a in assumed:
+        if a.startswith('axiom:'):
+            l_ = reg.axioms[a[6:]]
+            assumptions.append("assumed lemma (axiom, not discharged by SMT): %s -- %s%s" % (a[6:], l_.reason, (" [Lean: %s]" % l_.lean) if l_.lean else ""))
+            continue
         c = reg.contracts[a]
         assumptions.append("assumed contract (not verified): %s -- %s" % (a, c.assumed_reason or 'external / outside the fragment'))
     for cu in sorted(contracts_used):
